@@ -182,7 +182,7 @@ def run(tier):
                     chk.inconclusive += 1
                     continue
                 nviol += 1
-                if nviol > 10:
+                if nviol > 6:
                     chk.count("further_failing_executions")
                     continue
 
@@ -190,7 +190,7 @@ def run(tier):
                     e = runner.expected(q)
                     return monitors(q, wd, O_, which, e)
                 progcheck.handle_violation(chk, "memory", prog, cls, det, O, os.path.join(sc.path, "v%d_%s%d" % (i, which, O)), judge_fn=judge_fn,
-                                           reduce_budget=70, extra_sig={"monitor": which})
+                                           reduce_budget=50, extra_sig={"monitor": which})
             chk.note_case(hash(outs[0][3]["src"]), nontrivial=allocs > 0)
             if i < 2:
                 chk.sample({"source_head": outs[0][3]["src"][-800:], "ledger_summary": outs[0][3].get("ledger_summary"), "verdicts": [(w, O, c) for w, O, c, _ in outs]})
